@@ -1,7 +1,13 @@
 use super::convert::{date_to_days, days_to_date, year_doy_to_days, year_month_to_doy};
 use crate::{
-    errors::{out_of_range::create_custom_oor, AstrolabeError},
-    util::leap::is_leap_year,
+    errors::{
+        out_of_range::{create_custom_oor, create_simple_oor},
+        AstrolabeError,
+    },
+    util::{
+        constants::{MAX_DATE, MIN_DATE},
+        leap::is_leap_year,
+    },
 };
 
 pub(crate) fn set_year(days: i32, year: i32) -> Result<i32, AstrolabeError> {
@@ -29,46 +35,11 @@ pub(crate) fn set_day_of_year(days: i32, day_of_year: u32) -> Result<i32, Astrol
 }
 
 pub(crate) fn add_years(days: i32, years: u32) -> Result<i32, AstrolabeError> {
-    let (year, month, mut day) = days_to_date(days);
-    let mut target_year: i32 = year + years as i32;
-    // Skip year 0
-    if year < 0 && target_year >= 0 {
-        target_year += 1;
-    }
-
-    if is_leap_year(year) && !is_leap_year(target_year) && month == 2 && day == 29 {
-        day = 28;
-    }
-
-    date_to_days(target_year, month, day)
+    shift_years(days, years as i64)
 }
 
 pub(crate) fn add_months(days: i32, months: u32) -> Result<i32, AstrolabeError> {
-    let (year, month, day) = days_to_date(days);
-    let mut total_months = year * 12 + month as i32 + months as i32 - 1;
-    // Skip year 0
-    if total_months <= 11 {
-        total_months += 12;
-    }
-
-    let target_year = total_months / 12;
-    let target_month = if (month + months) % 12 == 0 {
-        12
-    } else {
-        (month + months) % 12
-    };
-    let target_day = match day {
-        day if day < 29 => day,
-        _ => {
-            let (_, mdays) = year_month_to_doy(target_year, target_month).unwrap();
-            if day > mdays {
-                mdays
-            } else {
-                day
-            }
-        }
-    };
-    date_to_days(target_year, target_month, target_day)
+    shift_months(days, months as i64)
 }
 
 pub(crate) fn add_days(old_days: i32, days: u32) -> Result<i32, AstrolabeError> {
@@ -81,50 +52,11 @@ pub(crate) fn add_days(old_days: i32, days: u32) -> Result<i32, AstrolabeError> 
 }
 
 pub(crate) fn sub_years(days: i32, years: u32) -> Result<i32, AstrolabeError> {
-    let (year, month, mut day) = days_to_date(days);
-    let mut target_year: i32 = year - years as i32;
-    // Skip year 0
-    if year > 0 && target_year <= 0 {
-        target_year -= 1;
-    }
-
-    if is_leap_year(year) && !is_leap_year(target_year) && month == 2 && day == 29 {
-        day = 28;
-    }
-
-    date_to_days(target_year, month, day)
+    shift_years(days, -(years as i64))
 }
 
 pub(crate) fn sub_months(days: i32, months: u32) -> Result<i32, AstrolabeError> {
-    let (year, month, day) = days_to_date(days);
-    let mut total_months = year * 12 + month as i32 - months as i32 - 1;
-    // Skip year 0
-    if total_months <= 11 {
-        if year > 0 {
-            total_months -= 24;
-        } else {
-            total_months -= 12;
-        }
-    }
-
-    let target_year = total_months / 12;
-    let target_month = if (month - months) % 12 == 0 {
-        12
-    } else {
-        (month - months) % 12
-    };
-    let target_day = match day {
-        day if day < 29 => day,
-        _ => {
-            let (_, mdays) = year_month_to_doy(target_year, target_month).unwrap();
-            if day > mdays {
-                mdays
-            } else {
-                day
-            }
-        }
-    };
-    date_to_days(target_year, target_month, target_day)
+    shift_months(days, -(months as i64))
 }
 
 pub(crate) fn sub_days(old_days: i32, days: u32) -> Result<i32, AstrolabeError> {
@@ -134,4 +66,58 @@ pub(crate) fn sub_days(old_days: i32, days: u32) -> Result<i32, AstrolabeError> 
             days,
         ))
     })
+}
+
+/// Converts a year to a continuous year number (there is no year 0, `-1` is mapped to `0`)
+fn year_to_continuous(year: i32) -> i64 {
+    if year > 0 {
+        year as i64
+    } else {
+        year as i64 + 1
+    }
+}
+
+/// Converts a continuous year number back to a year (`0` is mapped to `-1`)
+fn continuous_to_year(continuous_year: i64) -> Result<i32, AstrolabeError> {
+    let year = if continuous_year > 0 {
+        continuous_year
+    } else {
+        continuous_year - 1
+    };
+    i32::try_from(year).map_err(|_| {
+        create_simple_oor("year", MIN_DATE.0 as i128, MAX_DATE.0 as i128, year as i128)
+    })
+}
+
+/// Moves a date by the given number of years (can be negative). February 29 is changed to February 28 in non leap years
+fn shift_years(days: i32, years: i64) -> Result<i32, AstrolabeError> {
+    let (year, month, mut day) = days_to_date(days);
+    let target_year = continuous_to_year(year_to_continuous(year) + years)?;
+
+    if is_leap_year(year) && !is_leap_year(target_year) && month == 2 && day == 29 {
+        day = 28;
+    }
+
+    date_to_days(target_year, month, day)
+}
+
+/// Moves a date by the given number of months (can be negative). The day of month is reduced to the last day of the target month if necessary
+fn shift_months(days: i32, months: i64) -> Result<i32, AstrolabeError> {
+    let (year, month, day) = days_to_date(days);
+    let total_months = year_to_continuous(year) * 12 + month as i64 - 1 + months;
+
+    let target_year = continuous_to_year(total_months.div_euclid(12))?;
+    let target_month = total_months.rem_euclid(12) as u32 + 1;
+    let target_day = match day {
+        day if day < 29 => day,
+        _ => {
+            let (_, mdays) = year_month_to_doy(target_year, target_month)?;
+            if day > mdays {
+                mdays
+            } else {
+                day
+            }
+        }
+    };
+    date_to_days(target_year, target_month, target_day)
 }
